@@ -25,8 +25,9 @@ RULE = ("one run = one seeded file (fastavro writer under C04's knobs, a multi-w
         "write_block history, or the foreign refavro writer with layouts fastavro never produces) "
         "or one schemaless encoding; one evaluation = one faulted read (cut(k) / sync bit flip / "
         "marker replacement) through reader or block_reader. Within a file the cut offsets and "
-        "marker bits are enumerated (thorough: all; quick: all offsets of files <= 1.5 KiB, else "
-        "+-24 bytes around every structural boundary plus a stride). non-trivial = the fault lands "
+        "marker bits are enumerated (all offsets of files <= 1.5 KiB quick / 12 KiB thorough, else "
+        "+-24 bytes around every structural boundary plus a stride; all 128 bits of each marker in thorough, a "
+        "seeded 23-bit subset in quick; at most 6 / 24 markers per file get the full treatment). non-trivial = the fault lands "
         "inside the stored bytes; distinct = (file digest, reader, fault kind, offset/bit), counted "
         "as the number of such faults over distinct file digests")
 ASSUMPTIONS = [
@@ -76,7 +77,7 @@ def _classify_cut(k, truth, data):
 
 
 def _cut_offsets(ch, L, truth, tier):
-    if tier == "thorough" or L <= 1536:
+    if L <= (1536 if tier == "quick" else 12288):
         return list(range(L))
     ks = set(range(min(L, 64)))
     bounds = [truth.header_len] + [b[1] for b in truth.blocks]
@@ -94,6 +95,12 @@ def build_file(ch, ctx):
     if src == 0:
         sc = common.container_scenario(ch, max_records=10)
         sc.sync_interval = common.draw_sync_interval(ch, common.encoded_sizes(sc))
+        if ch.chance(8):
+            # >= 64 tiny records in one block: the block's count is a multi-byte varint
+            sc.schema = {"type": "record", "name": "Tiny", "fields": [{"name": "serial", "type": "long"}]}
+            sc.node = refavro.resolve(sc.schema)
+            sc.records = [{"serial": i} for i in range(64 + ch.draw(80))]
+            sc.sync_interval = 16000
         data = common.fa_file(sc)
         return data, "fastavro", sc.describe(), [common.strip_hints(r, sc.node) for r in sc.records], sc.node
     if src == 1:
@@ -227,6 +234,12 @@ def run_one(ch, ctx):
         cum += cnt
         markers.append((j, e - 16, cum))
     first_cum = truth.blocks[0][2] if truth.blocks else 0
+    cap = 6 if ctx.tier == "quick" else 24
+    if len(markers) > cap:
+        # many blocks: header marker, first and last blocks and a seeded sample get the full treatment
+        keep = {0, 1, 2, len(markers) - 2, len(markers) - 1} | {ch.draw(len(markers)) for _ in range(cap - 5)}
+        markers = [m for i, m in enumerate(markers) if i in keep]
+        ctx.stat("marker_sampled")
     for (j, off, cumj) in markers:
         if j == "header" and not truth.blocks:
             continue
